@@ -586,7 +586,7 @@ func (g *G) col() X {
 func (g *G) lit() X {
 	switch g.R.Intn(8) {
 	case 0:
-		return g.Str(g.pick([]string{"x", "hello world", "it's", "", "select", "a,b", "100%"}))
+		return g.Str(g.pick([]string{"x", "hello world", "it's", "", "select", "a,b", "100%", "order by", "left join", "GROUP BY", "full join", "grouping sets", "union all", "is not null"}))
 	case 1:
 		return g.Float(g.pick([]string{"1.5", "0.25", "3.14", "1e5", "2.5E-3"}))
 	case 2:
